@@ -189,6 +189,17 @@ def edits(root, sm):
                     for c in list(s[i]):
                         s[i].remove(c)
             add("R3:extends-later-type", 1, f)
+    # R9 empty / blank / padded values of the name-carrying attributes of a section type
+    for i, st in enumerate(sts):
+        for attr in ("implements", "extends"):
+            cur = st.get(attr)
+            variants = ["", " "]
+            if cur:
+                variants += [" " + cur, cur + " ", cur + "\n"]
+            for vi, val in enumerate(variants):
+                def f(root, i=i, attr=attr, val=val):
+                    root.findall("sectiontype")[i].set(attr, val)
+                add("R9:%s-%s" % (attr, ["empty", "blank", "leading-blank", "trailing-blank", "trailing-newline"][vi]), 1, f)
     # R4 wrong kind
     if abss:
         for i, st in enumerate(sts):
